@@ -1357,3 +1357,131 @@ def pan7(ctx, unit=None, only=None):
         raise AnchorMissing("PAN-7 scanned only %d functions" % n_fn)
     r.inst("%d functions of the library scanned for str range-slices" % n_fn, None)
     return r
+
+
+# ====================================================================== PAN-8
+
+
+def _copy_root(b, l, depth=0):
+    """follow `_x = copy/move _y` chains back to a user local / parameter"""
+    if depth > 6:
+        return l
+    d = None
+    n = 0
+    for blk in b.blocks:
+        for s in blk["s"]:
+            if s["k"] == "assign" and s["lhs"]["l"] == l and not s["lhs"]["p"]:
+                d = s["rv"]
+                n += 1
+    if n == 1 and d.get("k") == "use" and d["op"].get("k") in ("copy", "move") and not d["op"]["pl"]["p"]:
+        return _copy_root(b, d["op"]["pl"]["l"], depth + 1)
+    return l
+
+
+def _index_requirements(lib):
+    """function path -> set of parameter positions (1-based MIR locals) that are used as a container index without any
+    comparison of that parameter in the function (the caller must pass an in-bounds value)"""
+    req = {}
+    bodies = [b for b in lib.bodies if not b.in_test_mod() and b.kind in ("fn", "assoc_fn")]
+    compared = {}
+    for b in bodies:
+        cmpd = set()
+        for blk in b.blocks:
+            for s in blk["s"]:
+                if s["k"] == "assign" and s["rv"].get("k") == "binop" and s["rv"]["op"] in ("Lt", "Le", "Gt", "Ge", "Eq", "Ne"):
+                    for o in (s["rv"]["a"], s["rv"]["b"]):
+                        if o.get("k") in ("copy", "move") and not o["pl"]["p"]:
+                            cmpd.add(_copy_root(b, o["pl"]["l"]))
+        compared[b.path] = cmpd
+    nparams = {b.path: len(b.param_tys) for b in bodies}
+    changed = True
+    rounds = 0
+    while changed and rounds < 6:
+        changed = False
+        rounds += 1
+        for b in bodies:
+            for bi, t in b.calls():
+                cp = callee_path(t) or ""
+                need = []
+                if ("ops::index::Index<" in cp and cp.endswith(">::index")) or ("ops::index::IndexMut<" in cp and cp.endswith(">::index_mut")):
+                    if len(t["args"]) == 2:
+                        need = [1]
+                elif cp in req:
+                    need = [k - 1 for k in req[cp]]
+                for ai in need:
+                    if ai >= len(t["args"]):
+                        continue
+                    a = t["args"][ai]
+                    if a.get("k") not in ("copy", "move") or a["pl"]["p"]:
+                        continue
+                    root = _copy_root(b, a["pl"]["l"])
+                    if 1 <= root <= nparams[b.path] and b.local_ty(root) == "usize" and root not in compared[b.path]:
+                        if root not in req.setdefault(b.path, set()):
+                            req[b.path].add(root)
+                            changed = True
+    return req, compared
+
+
+def pan8(ctx):
+    r = RuleResult("PAN-8", "a cursor that is advanced in a loop is compared with a length before it is handed to a function that indexes with it unchecked", floor=2)
+    lib = ctx.lib
+    req, compared = _index_requirements(lib)
+    r.analysed = {"functions_requiring_in_bounds_argument": {k: sorted(v) for k, v in sorted(req.items())}}
+    n = 0
+    for b in lib.bodies:
+        if b.in_test_mod() or b.kind not in ("fn", "assoc_fn"):
+            continue
+        cfg = None
+        per_fn = {}
+        for bi, t in b.calls():
+            cp = callee_path(t) or ""
+            if cp not in req:
+                continue
+            for k in sorted(req[cp]):
+                if k - 1 >= len(t["args"]):
+                    continue
+                a = t["args"][k - 1]
+                if a.get("k") not in ("copy", "move") or a["pl"]["p"]:
+                    continue
+                v = _copy_root(b, a["pl"]["l"])
+                if 1 <= v <= len(b.param_tys):
+                    continue        # the requirement moves up to this function's callers (already propagated)
+                # assignments that advance the cursor
+                adv = []
+                for ai, blk in enumerate(b.blocks):
+                    for s in blk["s"]:
+                        if s["k"] == "assign" and s["lhs"]["l"] == v and not s["lhs"]["p"] and s["rv"].get("k") == "binop" and s["rv"]["op"] in ("Add", "AddWithOverflow", "Sub", "SubWithOverflow"):
+                            adv.append(ai)
+                        if s["k"] == "assign" and s["lhs"]["l"] == v and not s["lhs"]["p"] and s["rv"].get("k") == "use" and s["rv"]["op"].get("k") in ("copy", "move") and s["rv"]["op"]["pl"]["p"]:
+                            # `j = move (_t.0)` after a checked add of j
+                            tl = s["rv"]["op"]["pl"]["l"]
+                            for blk2 in b.blocks:
+                                for s2 in blk2["s"]:
+                                    if s2["k"] == "assign" and s2["lhs"]["l"] == tl and not s2["lhs"]["p"] and s2["rv"].get("k") == "binop" and s2["rv"]["op"] in ("AddWithOverflow", "SubWithOverflow") \
+                                            and any(o.get("k") in ("copy", "move") and not o["pl"]["p"] and _copy_root(b, o["pl"]["l"]) == v for o in (s2["rv"]["a"], s2["rv"]["b"])):
+                                        adv.append(ai)
+                if not adv:
+                    continue
+                cfg = cfg or b.cfg
+                if not cfg.loops_containing(bi):
+                    continue
+                guards = set()
+                for gi, blk in enumerate(b.blocks):
+                    for s in blk["s"]:
+                        if s["k"] == "assign" and s["rv"].get("k") == "binop" and s["rv"]["op"] in ("Lt", "Le", "Gt", "Ge"):
+                            for o in (s["rv"]["a"], s["rv"]["b"]):
+                                if o.get("k") in ("copy", "move") and not o["pl"]["p"] and _copy_root(b, o["pl"]["l"]) == v:
+                                    guards.add(gi)
+                bad = [ai for ai in adv if ai != bi and bi in cfg.reachable_from(ai, avoid=guards) and ai not in guards]
+                n += 1
+                nm = b.local_name(v) or ("_%d" % v)
+                idx = per_fn.get(cp, 0)
+                per_fn[cp] = idx + 1
+                r.inst("%s: `%s` is compared with a length between every advance and the call of %s" % (b.path.rsplit("::", 1)[-1], nm, cp.rsplit("::", 1)[-1]),
+                       ":".join(t["loc"].split(":")[:2]), "ok" if not bad else "report")
+                if bad:
+                    r.report("PAN-8|%s|%s|%s#%d" % (b.path, nm, cp.rsplit("::", 1)[-1], idx), ":".join(t["loc"].split(":")[:2]), b.path,
+                             "the cursor `%s` is advanced (e.g. at line %s) and then passed to %s, which indexes with it unchecked, without an intervening comparison with a length: one past the end panics"
+                             % (nm, ([x["loc"] for x in b.blocks[bad[0]]["s"] if x.get("loc")] + [b.blocks[bad[0]]["t"].get("loc") or "?:?"])[-2 if len([x for x in b.blocks[bad[0]]["s"] if x.get("loc")]) else -1].split(":")[1], cp.rsplit("::", 1)[-1]))
+    r.nontrivial = n
+    return r
